@@ -658,7 +658,8 @@ class Walker:
                 rty = callee.rtype
                 if kind == "fall":
                     val = Opaque("None")
-                elif isinstance(val, Num) and rty is not None and rty.kind in ("uint", "int"):
+                elif isinstance(val, Num) and rty is not None and rty.kind in ("uint", "int") and not (val.ty is not None and val.ty == rty):
+                    # (a value that already has the declared return type is handed back as it is)
                     lo, hi = rty.range()
                     if not (self.P.prove_le0(val.lin - hi, s2.facts) and self.P.prove_le0(Lin.const(lo) - val.lin, s2.facts)):
                         val = Num(Lin.term(self.fresh("cast", repr(rty), rty.range())), ty=rty)
@@ -878,10 +879,11 @@ class Walker:
         if not (isinstance(t, ast.Compare) and len(t.ops) == 1 and not s.orelse):
             return None
         var = bound = None
-        if isinstance(t.ops[0], ast.Lt) and isinstance(t.left, ast.Name):
-            var, bound = t.left.id, t.comparators[0]
-        elif isinstance(t.ops[0], ast.Gt) and isinstance(t.comparators[0], ast.Name):
-            var, bound = t.comparators[0].id, t.left
+        incl = False          # `i <= n` / `n >= i`: the bound itself is visited (range(a, n + 1))
+        if isinstance(t.ops[0], (ast.Lt, ast.LtE)) and isinstance(t.left, ast.Name):
+            var, bound, incl = t.left.id, t.comparators[0], isinstance(t.ops[0], ast.LtE)
+        elif isinstance(t.ops[0], (ast.Gt, ast.GtE)) and isinstance(t.comparators[0], ast.Name):
+            var, bound, incl = t.comparators[0].id, t.left, isinstance(t.ops[0], ast.GtE)
         if var is None or not s.body:
             return None
         last = s.body[-1]
@@ -913,7 +915,7 @@ class Walker:
         if not (isinstance(start, Num) and isinstance(bv, Num)):
             return None
         lp = Loop(s, "range", var)
-        lp.start, lp.stop, lp.step = start.lin, bv.lin, Lin.const(1)
+        lp.start, lp.stop, lp.step = start.lin, (bv.lin + 1) if incl else bv.lin, Lin.const(1)
         return lp
 
     def loop_descr(self, s, st):
@@ -950,6 +952,15 @@ class Walker:
         self.emit("loopstart", s, st, loop=lp, envsnap=dict(st.env))
         head = st.copy()
         self.kill(head, assigned, written)
+        # a loop-carried scalar keeps its machine type when every value that reaches the loop head has it (Numba unifies the types of
+        # all definitions of a variable): assumed first, verified on the back edges below, dropped and re-walked otherwise
+        keep_ty = {}
+        if self.func.is_kernel or self.root.is_kernel:
+            for n_ in assigned:
+                v0, vh = st.env.get(n_), head.env.get(n_)
+                if isinstance(v0, Num) and v0.ty is not None and isinstance(vh, Num) and vh is not v0 and vh.ty is None and not v0.isfloat:
+                    keep_ty[n_] = v0.ty
+                    head.env[n_] = Num(vh.lin, isfloat=vh.isfloat, ty=v0.ty)
         # Houdini over the rule-supplied candidate invariants
         cands = []
         for label, fn in self.loop_invariants:
@@ -981,6 +992,19 @@ class Walker:
                         g = fn(self, entry_env, rs.env)
                         if g is None or not self.P.prove_le0(g, rs.facts):
                             bad.add(label)
+            lost = set()
+            for rs, kind, _ in res:
+                if kind in ("fall", "continue"):
+                    for n_, ty_ in keep_ty.items():
+                        vb = rs.env.get(n_)
+                        if not (isinstance(vb, Num) and vb.ty == ty_):
+                            lost.add(n_)
+            if lost:
+                for n_ in lost:
+                    del keep_ty[n_]
+                    vh = head.env[n_]
+                    head.env[n_] = Num(vh.lin, isfloat=vh.isfloat, ty=None)
+                continue
             if not bad:
                 break
             cands = [c for c in cands if c[0] not in bad]
